@@ -54,6 +54,10 @@ type Case struct {
 	// conc
 	Router  string `json:"router,omitempty"`
 	SignAlg string `json:"sign_alg,omitempty"`
+	// SignKey / SignKID: key (name in vkit's pool) and key ID the shared provider's storage signs with ("" = the first pool key of
+	// the algorithm / "sig1"); the side providers have a SignSpec of their own
+	SignKey string `json:"sign_key,omitempty"`
+	SignKID string `json:"sign_kid,omitempty"`
 	JWTAT   bool   `json:"jwt_at,omitempty"` // the RP's client gets JWT access tokens
 	Progs   [][]Op `json:"progs,omitempty"`  // one op list per goroutine
 	// Sync: the goroutines rendezvous before op #i and once more inside op #i, just before its call into the shared
@@ -87,8 +91,9 @@ type Case struct {
 
 // SideProv is one further provider of a concurrent case.
 type SideProv struct {
-	Router string   `json:"router,omitempty"`
-	Cfg    *ProvCfg `json:"cfg,omitempty"`
+	Router string    `json:"router,omitempty"`
+	Cfg    *ProvCfg  `json:"cfg,omitempty"`
+	Sign   *SignSpec `json:"sign,omitempty"` // nil: the signing key, algorithm and key ID of the shared provider
 }
 
 // SuppliedClient describes one caller-supplied *http.Client (its Transport is always the in-process one).
@@ -134,6 +139,7 @@ var opKinds = map[string]opInfo{
 	// requests to the providers that share the process (twin run; the device authorization answers are also judged together after the join)
 	"devauth": {6, true}, // one device authorization request on the shared provider or a side provider
 	"xdisc":   {5, true}, // discovery document / key set of a side provider
+	"xtoken":  {5, true}, // a JWT access token issued by the shared provider or a side provider verifies with the key set that provider publishes
 	"bad":           {2, true},
 	"authorize_err": {2, true},
 	// requests that end in an error path, judged by the twin run (errops_test.go)
@@ -173,11 +179,11 @@ var opKinds = map[string]opInfo{
 // kinds that need nothing prepared: usable in a cold case
 var coldKinds = map[string]bool{"disc": true, "keys": true, "flow": true, "cc": true, "bearer": true, "devflow": true, "bad": true, "authorize_err": true, "profile_token": true,
 	"cb_notdone": true, "cb_unknown": true, "az_err": true, "az_noredirect": true, "tok_err": true, "cred_err": true, "es_err": true,
-	"devauth": true, "xdisc": true}
+	"devauth": true, "xdisc": true, "xtoken": true}
 
 // rapid prefers the low indexes of a SampledFrom list: the kinds that contend for client-side state come first
 var kindOrder = []string{
-	"rp_handler", "rp_handler_err", "rp_flow", "devauth", "xdisc", "rp_endsession", "rp_revoke", "cb_notdone", "az_err", "discover_redir", "rp_verify", "ks_verify", "poll_approved", "flow", "rp_userinfo",
+	"rp_handler", "rp_handler_err", "rp_flow", "devauth", "xdisc", "xtoken", "rp_endsession", "rp_revoke", "cb_notdone", "az_err", "discover_redir", "rp_verify", "ks_verify", "poll_approved", "flow", "rp_userinfo",
 	"te_exchange", "rs_introspect", "rsjwt_introsp", "profile_token", "rp_device", "rp_cc", "rp_refresh_vol", "rp_authurl",
 	"devflow", "cc", "bearer", "te", "disc", "keys", "userinfo", "introspect", "code_shared", "refresh_vol", "revoke", "endsession",
 	"userinfo_vol", "poll_pending", "poll_denied", "bad", "authorize_err", "tok_err", "cred_err", "dead_tok", "es_err", "cb_unknown", "az_noredirect",
@@ -210,8 +216,16 @@ func genConc(t *rapid.T) Case {
 	if rapid.IntRange(0, 3).Draw(t, "owncfg") > 0 {
 		c.Cfg = genProvCfg(t, "cfg-")
 	}
+	if rapid.IntRange(0, 2).Draw(t, "ownsign") > 0 {
+		ms := genSign(t, "sign-", c.SignAlg)
+		c.SignAlg, c.SignKey, c.SignKID = ms.Alg, ms.Key, ms.KID
+	}
 	for i, n := 0, rapid.SampledFrom([]int{0, 1, 2, 2, 3}).Draw(t, "sides"); i < n; i++ {
-		c.Side = append(c.Side, SideProv{Router: rapid.SampledFrom([]string{"provider", "legacy"}).Draw(t, "side-router"), Cfg: genProvCfg(t, fmt.Sprintf("side%d-", i))})
+		sp := SideProv{Router: rapid.SampledFrom([]string{"provider", "legacy"}).Draw(t, "side-router"), Cfg: genProvCfg(t, fmt.Sprintf("side%d-", i))}
+		if rapid.IntRange(0, 4).Draw(t, "side-ownsign") > 0 {
+			sp.Sign = genSign(t, fmt.Sprintf("side%d-sign-", i), c.SignAlg)
+		}
+		c.Side = append(c.Side, sp)
 	}
 	c.Sync = rapid.Bool().Draw(t, "lockstep")
 	c.Cold = rapid.IntRange(0, 2).Draw(t, "cold") == 0
@@ -269,6 +283,7 @@ type env struct {
 	rt     *inproc
 	built  *builtCfg    // the shared provider's op.Config and the slices it carries
 	sides  []*sideProv
+	sign   vkit.SignKeySpec // what the shared provider's storage signs with and publishes
 	owned0 snapshot     // the caller-owned configuration objects as they were handed to the constructors
 	devLog [][]devAnswer // per storage partition (so per goroutine): every device authorization answer the harness received
 	hc     *http.Client // THE caller-supplied client shared by every client-side instance
@@ -312,7 +327,28 @@ func conClients(c Case) []*vkit.ClientSpec {
 		{ID: "apijwt", AppType: "web", AuthMethod: "private_key_jwt", Keys: map[string]string{"kapi": "rsa3"}},
 		{ID: "svc", Secret: "svc-secret", AppType: "web", AuthMethod: "client_secret_basic", Service: true,
 			GrantTypes: []string{vkit.GCC, vkit.GBearer}, Keys: map[string]string{"ksvc": "rsa4"}},
+		// a service client whose access tokens are JWTs: what it is issued is signed with the provider's signing key (sign_test.go)
+		{ID: jwtSvcID, Secret: jwtSvcSecret, AppType: "web", AuthMethod: "client_secret_basic", Service: true, GrantTypes: []string{vkit.GCC}, JWTAccessToken: true},
 	}
+}
+
+// provFor resolves the provider variant v of an op (0 = the shared provider, else side provider (v-1) mod #sides) to a name and
+// the agent of storage partition part.
+func (e *env) provFor(v, part int) (string, *vkit.Agent) {
+	if v > 0 && len(e.sides) > 0 {
+		sp := e.sides[(v-1)%len(e.sides)]
+		return sp.name + " (" + sp.iss + ")", sp.ags[part]
+	}
+	return "the shared provider (" + issuer + ")", e.drv[part].ag
+}
+
+// signings names the signing configuration of every provider of the case.
+func (e *env) signings() string {
+	l := []string{"the shared provider signs with " + signName(e.sign)}
+	for _, sp := range e.sides {
+		l = append(l, sp.name+" with "+signName(sp.sign))
+	}
+	return strings.Join(l, "; ")
 }
 
 // sideProv is a further provider of the case, with its own storage, issuer and configuration.
@@ -323,6 +359,7 @@ type sideProv struct {
 	ps    *pstore
 	built *builtCfg
 	ags   []*vkit.Agent // one per storage partition
+	sign  vkit.SignKeySpec
 }
 
 func buildSUT(router, alg, issMode string, storage op.Storage, cfg *op.Config, issuer string) (*vkit.SUT, error) {
@@ -358,7 +395,8 @@ func newEnv(c Case) (*env, error) {
 	if keyForAlg[alg] == "" {
 		alg = "ES256"
 	}
-	e.ps = newPStore(cl, vkit.SignKeySpec{KeyName: keyForAlg[alg], Alg: alg, KID: "sig1"}, []string{"api", "apijwt"}, len(c.Progs)+1)
+	e.sign = (&SignSpec{Key: c.SignKey, Alg: alg, KID: c.SignKID}).spec(vkit.SignKeySpec{KeyName: keyForAlg[alg], Alg: alg, KID: "sig1"})
+	e.ps = newPStore(cl, e.sign, []string{"api", "apijwt"}, len(c.Progs)+1)
 	router := c.Router
 	if router != "legacy" {
 		router = "provider"
@@ -382,12 +420,13 @@ func newEnv(c Case) (*env, error) {
 		for k, v := range s.built.state(fmt.Sprintf("side-provider-%d", i+1)) {
 			e.owned0[k] = v
 		}
-		s.ps = newPStore(cl, vkit.SignKeySpec{KeyName: keyForAlg[alg], Alg: alg, KID: "sig1"}, nil, len(c.Progs)+1)
+		s.sign = sp.Sign.spec(e.sign)
+		s.ps = newPStore(cl, s.sign, nil, len(c.Progs)+1)
 		srouter := "provider"
 		if sp.Router == "legacy" {
 			srouter = "legacy"
 		}
-		if s.sut, err = buildSUT(srouter, alg, "", s.ps, s.built.cfg, s.iss); err != nil {
+		if s.sut, err = buildSUT(srouter, s.sign.Alg, "", s.ps, s.built.cfg, s.iss); err != nil {
 			return nil, fmt.Errorf("%s: %w", s.name, err)
 		}
 		for k := 0; k <= len(c.Progs); k++ {
@@ -1222,6 +1261,11 @@ func runConc(c Case) *vkit.Result {
 	for _, p := range e.rt.takePanics() {
 		res.Fail("C20:panic@"+p[strings.LastIndex(p, "@")+1:], "panic during sequential setup: %s", p)
 	}
+	earlier := []vkit.SignKeySpec{e.sign}
+	for _, sp := range e.sides {
+		res.Label("side-provider-signing:"+signRelation(sp.sign, earlier), "side-provider-signing-alg:"+sp.sign.Alg)
+		earlier = append(earlier, sp.sign)
+	}
 	if e.guardCR {
 		res.Label("guard:checkredirect")
 	}
@@ -1319,10 +1363,14 @@ func runConc(c Case) *vkit.Result {
 				if c.Cold && twinNeedsPools(r.op) {
 					continue
 				}
-				if r.op.K == "devauth" || r.op.K == "xdisc" {
+				if r.op.K == "devauth" || r.op.K == "xdisc" || r.op.K == "xtoken" {
 					res.Label(fmt.Sprintf("shared-process-request:%s/%d", r.op.K, min(((r.op.A%n)+n)%n, len(e.sides))))
 				} else {
 					res.Label(fmt.Sprintf("error-path:%s/%d", r.op.K, ((r.op.A%n)+n)%n))
+				}
+				if strings.HasPrefix(r.msg, "NOT-OWN-KEYS ") {
+					res.Fail(fpNotOwnKeys, "goroutine %d op %d (%+v), asked while %d providers share the process (%s): %s", r.g, r.i, r.op, 1+len(e.sides), e.signings(), strings.TrimPrefix(r.msg, "NOT-OWN-KEYS "))
+					continue
 				}
 				if strings.HasPrefix(r.msg, "NOT-OWN-CONFIG ") {
 					res.Fail(fpNotOwnConfig, "goroutine %d op %d (%+v), asked while %d providers with configurations of their own share the process: %s", r.g, r.i, r.op, 1+len(e.sides), strings.TrimPrefix(r.msg, "NOT-OWN-CONFIG "))
@@ -1386,6 +1434,21 @@ func runConc(c Case) *vkit.Result {
 		devAll = append(devAll, l...)
 	}
 	judgeDevAnswers(res, devAll)
+	// every live provider of the case, asked once more now that all goroutines have finished: the token it issues now verifies
+	// with the key set it publishes now
+	for v := 0; v <= len(e.sides); v++ {
+		name, pag := e.provFor(v, 0)
+		switch why := ownKeysProblem(pag, name); {
+		case why == "":
+			res.Label("own-keys:verified-after-join")
+		case strings.HasPrefix(why, "PANIC"):
+			res.Fail("C20:panic@"+why[strings.LastIndex(why, "@")+1:], "%s, asked for a token after the join: %s", name, why)
+		case strings.HasPrefix(why, "unavailable:"):
+			res.Label("own-keys:unavailable")
+		default:
+			res.Fail(fpNotOwnKeys, "after the join, %d providers sharing the process (%s): %s", 1+len(e.sides), e.signings(), why)
+		}
+	}
 	res.Label(fmt.Sprintf("device-authorization-answers:%d+", min(len(devAll)/5*5, 30)))
 	// package-level defaults and the configuration objects handed to the constructors hold what they held before the case
 	globals1, owned1 := takeGlobals(), snapshot{}
